@@ -173,6 +173,10 @@ def run(market_prices, cfg, universe_assets):
         allocs.append((cal.ts(d, 21, 0) if which == 1 else cal.ts(d, 14, 30), {a: float(w[a]) for a in full}))
         return [(a, tgt[a] - hold.get(a, 0)) for a in full if tgt[a] - hold.get(a, 0) != 0]
 
+    burn = cal.ts6(cfg['burn_in']) if cfg.get('burn_in') else None       # no rebalance and no equity point before it
+
+    def live(d, hh, mm):
+        return burn is None or cal.ts(d, hh, mm) >= burn
     for d in cal.bdays(d0, d1):
         batch = sorted(pending, key=lambda x: 0 if x[1] < 0 else 1)
         pending = []
@@ -180,15 +184,16 @@ def run(market_prices, cfg, universe_assets):
             batches.append((len(fills), len(batch), 'ordered'))
         for a, n in batch:
             fill(d, a, n)
-        if kind == 'buy_and_hold' and d in sched and bah_tod == (14, 30, 0):
+        if kind == 'buy_and_hold' and d in sched and bah_tod == (14, 30, 0) and live(d, 14, 30):
             orders = size(d, 0)
             batches.append((len(fills), len(orders), 'multiset'))
             for a, n in orders:
                 fill(d, a, n)
         E = cash + sum(F(market_prices[a][d][1]) * n for a, n in hold.items())
-        if d in sched and (kind != 'buy_and_hold' or bah_tod == (21, 0, 0)):
+        if d in sched and (kind != 'buy_and_hold' or bah_tod == (21, 0, 0)) and live(d, 21, 0):
             # (a buy-and-hold start stamped 21:00 is that day's close: sized there, filled at the next open)
             pending = size(d, 1)
-        eq.append((d, float(E)))
+        if live(d, 21, 0):
+            eq.append((d, float(E)))
     return {'fills': fills, 'cash': cash, 'holdings': dict(hold), 'equity': eq, 'allocations': allocs,
             'batches': batches, 'pending': pending}
